@@ -85,7 +85,9 @@ def config_cases(out, drv):
             except BaseException as e:  # noqa: BLE001
                 got = "OTHER:" + type(e).__name__
             finally:
-                cfg.jaxtyping_disable, cfg.jaxtyping_remove_typechecker_stack = before
+                # through the public route only: how the values are stored is the library's business
+                cfg.update("jaxtyping_disable", before[0])
+                cfg.update("jaxtyping_remove_typechecker_stack", before[1])
             ascii_ok = not isinstance(v, str) or v.isascii()
             out.case(("cfg", item, repr(v)), item.lower().startswith("jaxtyping_"), sample={"item": item, "value": repr(v), "observed": got})
             if not (ascii_ok and item.isascii()):
@@ -100,6 +102,7 @@ def config_cases(out, drv):
 
 
 def env_cases(out, thorough):
+    env_then_update_cases(out)
     spellings = ["1", "true", "TRUE", "0", "False", "yes", ""] if not thorough else ["1", "true", "TRUE", "tRuE", "0", "false", "False", "FALSE", "yes", "", "2", " 1"]
     code = (
         "import sys\n"
@@ -119,6 +122,48 @@ def env_cases(out, thorough):
         out.case(("env", sp), True, sample={"JAXTYPING_DISABLE": sp, "observed": got})
         if got != want:
             out.violation(f"env:{sp!r}", f"JAXTYPING_DISABLE={sp!r} gives {got}, must give {want}", {"env": sp, "observed": got})
+
+
+ENV_THEN_UPDATE = r"""
+import sys
+sys.path.insert(0, sys.argv[1])
+import json
+import jaxtyping, typeguard
+from jaxtyping import Float, config, jaxtyped
+class A:
+    def __init__(self, shape): self.shape, self.dtype = shape, "float32"
+@jaxtyped(typechecker=typeguard.typechecked)
+def f(x: Float[A, "3"]): return "ran"
+def probe():
+    try:
+        return f(A((4,)))
+    except jaxtyping.TypeCheckError:
+        return "tce"
+res = [["start", bool(config.jaxtyping_disable), probe()]]
+for v in json.loads(sys.argv[2]):
+    config.update("jaxtyping_disable", v)
+    res.append([v, bool(config.jaxtyping_disable), probe()])
+print("RES " + json.dumps(res))
+"""
+
+
+def env_then_update_cases(out):
+    """the environment variable only sets the switch's INITIAL value: later `config.update` calls decide, in both directions"""
+    for env_val, updates in (("1", [False, True, "0", "TRUE", False]), ("true", ["false"]), ("0", [True, False]), ("TRUE", [False, False, "1"])):
+        env = dict(os.environ, JAXTYPING_DISABLE=env_val)
+        p = subprocess.run([PY, "-c", ENV_THEN_UPDATE, REPO, json.dumps(updates)], env=env, capture_output=True, text=True, timeout=300)
+        line = next((l for l in p.stdout.splitlines() if l.startswith("RES ")), None)
+        out.case(("env-then-update", env_val, json.dumps(updates)), True, sample={"JAXTYPING_DISABLE": env_val, "updates": updates, "observed": line})
+        if line is None:
+            out.violation("env-then-update:failed", f"JAXTYPING_DISABLE={env_val} then updates {updates}: the interpreter failed: {p.stderr[-300:]}", {"env": env_val, "updates": updates})
+            continue
+        res = json.loads(line[4:])
+        truth = lambda v: str(v).lower() in ("1", "true")  # noqa: E731
+        want = [["start", truth(env_val), "ran" if truth(env_val) else "tce"]] + [[v, truth(v), "ran" if truth(v) else "tce"] for v in updates]
+        if res != want:
+            k = next(i for i, (a, b) in enumerate(zip(res, want)) if a != b)
+            out.violation("env-then-update", f"JAXTYPING_DISABLE={env_val}, then config.update('jaxtyping_disable', …) with {updates}: after step {k} the switch reads {res[k][1]} and an "
+                          f"ill-typed call gives {res[k][2]!r}; it must read {want[k][1]} and give {want[k][2]!r}", {"env": env_val, "updates": updates, "observed": res})
 
 
 HOOKED_CHILD = r"""
